@@ -104,7 +104,8 @@ def main():
         vio = [l for l in out.split("\n") if l.startswith("VIOLATION")]
         with_input = [l for l in vio if "no-failing-input-found" not in l]
         first = next((l.strip() for l in out.split("\n") if l.strip().startswith("violation:")), "")
-        got = "CAUGHT" if with_input else "TIE-ONLY" if vio else "SILENT"
+        done = re.search(r"C\d\d quick: (ok|FAIL)", out)
+        got = "CAUGHT" if with_input else "TIE-ONLY" if vio else "SILENT" if done else "CHECK-TIMED-OUT"
         expected = {"break": "CAUGHT", "preserving": "TIE-ONLY", "harmless": "SILENT"}[kind]
         ok = got == expected
         bad += 0 if ok else 1
